@@ -7,6 +7,7 @@ import (
 	"go/token"
 	"go/types"
 	"golang.org/x/tools/go/packages"
+	"reflect"
 	"sort"
 	"strings"
 
@@ -1425,6 +1426,34 @@ func r097(c *Ctx, r *R) {
 				src = "parameter " + f.Params[p].Name()
 			}
 		})
+		// where the round skips a pair "we hold nothing for", the test is
+		// about that very pair (name and peer), not about the peer at large:
+		// alert() forgets a pair after reporting it, and a pair that is
+		// looked at again because the peer still has other metrics is
+		// reported again and again
+		if f.Name() == "CheckPeers" {
+			for _, fm := range findCalls(f, false, "metrics.Checker).FailedMetric") {
+				for _, g := range guardsOf(fm.Block()) {
+					if g.Derived {
+						continue
+					}
+					x, _, _, isCmp := cmpIntConst(g.Cond)
+					if !isCmp {
+						continue
+					}
+					lc, _ := originCall(x)
+					if lc == nil || callName(lc.Common()) != "builtin.len" {
+						continue
+					}
+					acc, _ := originCall(lc.Common().Args[0])
+					if acc == nil {
+						continue
+					}
+					pairwise := len(callArgs(acc.Common())) >= 2
+					r.Check(pairwise, "per-pair:skip-test:"+f.Name(), g.Cond.Pos(), "a pair is skipped when nothing is stored for that pair", f.Name()+" skips a (metric name, peer) pair by a test on the peer alone ("+shortName(acc)+"): a pair that was reported and forgotten is examined again as long as the peer has any other metric, found 'failed' (no window) and reported every other round")
+				}
+			}
+		}
 		r.Check(!window, key, s.Pos(), "the innermost loop around alert() ranges over "+src+" (one element per peer/metric pair)", f.Name()+" calls alert() once per entry of one peer's metrics window ("+src+"): FailedMetric is decided per (name, peer), so a window holding N expired entries alerts about N/2 times in the round that detects the failure instead of once")
 	}
 }
@@ -3113,4 +3142,446 @@ func flatFields(t types.Type, skip string) []*types.Var {
 		out = append(out, f)
 	}
 	return out
+}
+
+func init() {
+	register(&Rule{ID: "R08.8", Props: []string{"C08", "C01", "C14"}, Floor: 8, Title: "the stored form of a pin is decoded field by field: in ProtoUnmarshal the restoring of one field is conditional only on that field's own stored value (never on whether another field, e.g. the expiry, is set), and the snapshot's keys are written relative to the namespace and re-rooted under it on restore", Run: r088})
+}
+
+func r088(c *Ctx, r *R) {
+	f := c.fn(r, "api", "Pin.ProtoUnmarshal")
+	if f == nil {
+		return
+	}
+	isGetter := func(call *ssa.Call) (string, bool) {
+		cal := call.Common().StaticCallee()
+		if cal == nil || cal.Pkg == nil || !strings.HasSuffix(cal.Pkg.Pkg.Path(), "/api/pb") || !strings.HasPrefix(cal.Name(), "Get") {
+			return "", false
+		}
+		// a getter of a sub-message is transparent
+		if res := cal.Signature.Results(); res.Len() == 1 {
+			if p, ok := res.At(0).Type().(*types.Pointer); ok {
+				if nt, ok := p.Elem().(*types.Named); ok && strings.HasSuffix(pkgPathOf(nt), "/api/pb") {
+					return "", false
+				}
+			}
+		}
+		return cal.Name(), true
+	}
+	var getters func(v ssa.Value, depth int, seen map[ssa.Value]bool, out map[string]bool)
+	getters = func(v ssa.Value, depth int, seen map[ssa.Value]bool, out map[string]bool) {
+		if v == nil || depth > 10 || seen[v] {
+			return
+		}
+		seen[v] = true
+		switch x := v.(type) {
+		case *ssa.Call:
+			if name, ok := isGetter(x); ok {
+				out[name] = true
+				return
+			}
+			for _, a := range x.Common().Args {
+				getters(a, depth+1, seen, out)
+			}
+			if x.Common().IsInvoke() {
+				getters(x.Common().Value, depth+1, seen, out)
+			}
+		case *ssa.BinOp:
+			getters(x.X, depth+1, seen, out)
+			getters(x.Y, depth+1, seen, out)
+		case *ssa.UnOp:
+			getters(x.X, depth+1, seen, out)
+		case *ssa.Phi:
+			for _, e := range x.Edges {
+				getters(e, depth+1, seen, out)
+			}
+		case *ssa.Convert:
+			getters(x.X, depth+1, seen, out)
+		case *ssa.ChangeType:
+			getters(x.X, depth+1, seen, out)
+		case *ssa.MakeInterface:
+			getters(x.X, depth+1, seen, out)
+		case *ssa.Extract:
+			getters(x.Tuple, depth+1, seen, out)
+		case *ssa.Lookup:
+			getters(x.X, depth+1, seen, out)
+		case *ssa.Index:
+			getters(x.X, depth+1, seen, out)
+		case *ssa.IndexAddr:
+			getters(x.X, depth+1, seen, out)
+		case *ssa.Slice:
+			getters(x.X, depth+1, seen, out)
+		case *ssa.Next:
+			getters(x.Iter, depth+1, seen, out)
+		case *ssa.Range:
+			getters(x.X, depth+1, seen, out)
+		case *ssa.Alloc:
+			if x.Referrers() != nil {
+				for _, ref := range *x.Referrers() {
+					if st, ok := ref.(*ssa.Store); ok && st.Addr == ssa.Value(x) {
+						getters(st.Val, depth+1, seen, out)
+					}
+				}
+			}
+		}
+	}
+	set := func(v ssa.Value) map[string]bool {
+		out := map[string]bool{}
+		getters(v, 0, map[ssa.Value]bool{}, out)
+		return out
+	}
+	n := 0
+	for g := range ssaClosure(f) {
+		instrs(g, func(i ssa.Instruction) {
+			st, ok := i.(*ssa.Store)
+			if !ok {
+				return
+			}
+			fa, ok := st.Addr.(*ssa.FieldAddr)
+			if !ok {
+				return
+			}
+			owner := ownerOf(rootOfFieldAddr(fa).Type())
+			if owner == nil || owner.Obj().Pkg() == nil || !strings.HasSuffix(owner.Obj().Pkg().Path(), "/api") || (owner.Obj().Name() != "Pin" && owner.Obj().Name() != "PinOptions") {
+				return
+			}
+			val := set(st.Val)
+			if len(val) == 0 {
+				return
+			}
+			n++
+			var foreign []string
+			for _, gd := range guardsOf(st.Block()) {
+				if gd.Derived || gd.If == nil || gd.If.Parent() != g {
+					continue
+				}
+				ib := gd.If.Block()
+				// "the loop over another field is over" is no condition
+				if inNaturalLoop(ib, ib) && !inNaturalLoop(st.Block(), ib) {
+					continue
+				}
+				// a test whose other outcome aborts the decoding with an
+				// error is no condition either: only a skip that still
+				// ends in success loses the field
+				other := ib.Succs[0]
+				if other == st.Block() || other.Dominates(st.Block()) {
+					other = ib.Succs[1]
+				}
+				skips := false
+				for _, ret := range returnsOf(g) {
+					if len(ret.Results) > 0 && isNilConst(retResult(ret, len(ret.Results)-1)) && (ret.Block() == other || blockReachesAvoiding(other, ret.Block(), st.Block())) {
+						skips = true
+					}
+				}
+				if !skips {
+					continue
+				}
+				for name := range set(gd.Cond) {
+					if !val[name] {
+						foreign = append(foreign, name)
+					}
+				}
+			}
+			sort.Strings(foreign)
+			fname := fieldOfAddr(fa).Name()
+			r.Check(len(foreign) == 0, "decode-independent:"+fname, st.Pos(), fname+" is restored from its own stored value, whatever the other fields hold", fmt.Sprintf("ProtoUnmarshal restores %s (from %v) only under a test on another stored field (%v): a pin read back from the state loses %s whenever that other field is unset", fname, keysOf(val), foreign, fname))
+		})
+	}
+	if n == 0 {
+		r.Und("decode-independent", f.Pos(), "no field of the pin is restored from a protobuf getter: shape not recognised")
+	}
+	// snapshot keys
+	if m := c.fn(r, "state/dsstate", "State.Marshal"); m != nil {
+		ok := false
+		instrs(m, func(i ssa.Instruction) {
+			st, isSt := i.(*ssa.Store)
+			if !isSt {
+				return
+			}
+			if fl, _ := fieldOfAddrValue(st.Addr); fl == nil || fl.Name() != "Key" {
+				return
+			}
+			if cc, _ := originCall(st.Val); cc != nil && nameMatches(callName(cc.Common()), "go-datastore.Key).BaseNamespace") {
+				ok = true
+			}
+		})
+		r.Check(ok, "snapshot-key:relative", m.Pos(), "snapshot entries carry the key without the namespace", "State.Marshal no longer stores the key relative to the namespace (BaseNamespace): Unmarshal re-roots every key under the namespace, so a restored snapshot holds its pins under doubled prefixes where no reader finds them - a replica restored from a snapshot has an empty pinset")
+	}
+	if u := c.fn(r, "state/dsstate", "State.Unmarshal"); u != nil {
+		ok := false
+		for _, ci := range findCalls(u, false, "go-datastore.Write).Put", "go-datastore.Datastore).Put", "go-datastore.Batching).Put") {
+			args := callArgs(ci.Common())
+			if len(args) == 0 {
+				continue
+			}
+			if cc, _ := originCall(args[0]); cc != nil && nameMatches(callName(cc.Common()), "go-datastore.Key).Child") {
+				if fl, _ := fieldLoad(cc.Common().Args[0]); fl != nil && fl.Name() == "namespace" {
+					ok = true
+				}
+			}
+		}
+		r.Check(ok, "snapshot-key:re-rooted", u.Pos(), "restored entries are put under the state's namespace", "State.Unmarshal does not put the restored entries under namespace.Child(key)")
+	}
+}
+
+func init() {
+	register(&Rule{ID: "R02.8", Props: []string{"C02", "C14"}, Floor: 3, Title: "the crdt stores are found where the running peer keeps them and cleaned completely: every block datastore is the datastore wrapped under <namespace>/<blocks namespace> (online and offline agree), and Clean deletes every key under the namespace (a leftover DAG block makes go-ds-crdt skip the delta it belongs to)", Run: r028})
+}
+
+func r028(c *Ctx, r *R) {
+	sp := c.P.SSAPkg("consensus/crdt")
+	if sp == nil {
+		r.Und("pkg", token.NoPos, "consensus/crdt missing")
+		return
+	}
+	blocksNs := c.constNamed("consensus/crdt", "blocksNs")
+	n := 0
+	c.P.RepoFuncs(func(f *ssa.Function) {
+		root := f
+		for root.Parent() != nil {
+			root = root.Parent()
+		}
+		if root.Pkg != sp {
+			return
+		}
+		for _, ci := range findCalls(f, false, "go-datastore/namespace.Wrap") {
+			n++
+			args := ci.Common().Args
+			ok := false
+			if len(args) == 2 {
+				if ch, _ := originCall(args[1]); ch != nil && nameMatches(callName(ch.Common()), "go-datastore.Key).ChildString") {
+					a := ch.Common().Args
+					isBlocksNs := false
+					if k, isK := constOf(a[len(a)-1]); isK && k != nil && blocksNs != nil && constant.Compare(k, token.EQL, blocksNs) {
+						isBlocksNs = true
+					}
+					if u, isU := stripLocal(a[len(a)-1]).(*ssa.UnOp); isU && u.Op == token.MUL {
+						if gl, isG := u.X.(*ssa.Global); isG && gl.Name() == "blocksNs" {
+							isBlocksNs = true // the package-level name of the blocks namespace
+						}
+					}
+					if isBlocksNs {
+						// the parent key is the configured namespace
+						base, _ := originCall(a[0])
+						if base != nil && nameMatches(callName(base.Common()), "go-datastore.NewKey") {
+							if fl, _ := fieldLoad(base.Common().Args[0]); fl != nil && fl.Name() == "DatastoreNamespace" {
+								ok = true
+							}
+						}
+					}
+				}
+			}
+			r.Check(ok, "blockstore-namespace:"+f.Name(), ci.Pos(), "the DAG blocks live under <namespace>/<blocks namespace>", f.Name()+" wraps the block datastore under a key other than NewKey(DatastoreNamespace).ChildString(blocksNs): the offline state and the running peer then keep the DAG blocks in different places - deltas committed offline (state import) can never be served to other peers, which hold the heads and never merge them")
+		}
+	})
+	if n < 2 {
+		r.Und("blockstore-namespace", token.NoPos, "fewer than two block datastores found in consensus/crdt (online setup and OfflineState expected)")
+	}
+	if cl := c.P.Func("consensus/crdt", "Clean"); cl != nil {
+		dels := findCalls(cl, false, "go-datastore.Write).Delete", "go-datastore.Datastore).Delete")
+		if len(dels) == 0 {
+			r.Und("clean:delete", cl.Pos(), "Clean deletes nothing: shape not recognised")
+		}
+		for _, d := range dels {
+			ok := true
+			for _, g := range guardsOf(d.Block()) {
+				if g.Derived || g.If == nil {
+					continue
+				}
+				// the loop's own condition and error tests are fine
+				if ex, isEx := stripLocal(g.Cond).(*ssa.Extract); isEx {
+					if _, isN := ex.Tuple.(*ssa.Next); isN {
+						continue
+					}
+					if _, isSel := ex.Tuple.(*ssa.Select); isSel {
+						continue
+					}
+					if u, isU := ex.Tuple.(*ssa.UnOp); isU && u.Op == token.ARROW {
+						continue // v, ok := <-ch
+					}
+				}
+				if _, _, isNil := nilCmp(g.Cond); isNil {
+					continue
+				}
+				ok = false
+			}
+			r.Check(ok, "clean:everything", d.Pos(), "every key under the namespace is deleted", "Clean keeps some keys of the namespace (a test on the key decides what is deleted): go-ds-crdt treats a DAG block it already has as a delta it already merged, so a peer that is cleaned and rejoins on the same datastore never re-merges the old pins and stays with a partial pinset")
+		}
+	}
+}
+
+func init() {
+	register(&Rule{ID: "R15.15", Props: []string{"C15", "C07"}, Floor: 14, Title: "no JSON configuration field carries an envconfig `default` or `required` tag: ApplyEnvVars feeds envconfig the loaded configuration, and envconfig overwrites a populated field with its default whenever the variable is unset", Run: r1515})
+	register(&Rule{ID: "R09.11", Props: []string{"C09", "C03", "C08"}, Floor: 3, Title: "what was received is what is stored and sent: Window.Add stores on every path, PublishMetric hands pubsub a buffer that nothing reuses (pubsub does not copy the payload)", Run: r0911})
+	register(&Rule{ID: "R04.8", Props: []string{"C04", "C03", "C08"}, Floor: 3, Title: "replication factors are taken from the request one by one: an unset factor is replaced by the cluster default without touching the other, and the `replication` shorthand of the query form applies to both factors", Run: r048})
+}
+
+func r1515(c *Ctx, r *R) {
+	n := 0
+	for _, cc := range c.componentConfigs(r) {
+		J := jsonStructOf(c, cc)
+		if J == nil {
+			continue
+		}
+		var walk func(t types.Type, path string, depth int)
+		walk = func(t types.Type, path string, depth int) {
+			st := structOf(t)
+			if st == nil || depth > 3 {
+				return
+			}
+			for i := 0; i < st.NumFields(); i++ {
+				tag := reflect.StructTag(st.Tag(i))
+				n++
+				_, hasD := tag.Lookup("default")
+				_, hasR := tag.Lookup("required")
+				fld := st.Field(i)
+				r.Check(!hasD && !hasR, "envconfig-tag:"+cc.rel+"."+path+fld.Name(), fld.Pos(), "no envconfig default/required tag", fmt.Sprintf("JSON setting %s%s of %s carries an envconfig default/required tag: ApplyEnvVars (run on every daemon start) processes the already loaded configuration, and envconfig replaces the loaded value by the tag's default whenever the environment variable is unset", path, fld.Name(), cc.rel))
+				if nt, ok := fld.Type().(*types.Named); ok && nt.Obj().Pkg() == cc.pkg.Types {
+					walk(nt, path+fld.Name()+".", depth+1)
+				}
+			}
+		}
+		walk(J, "", 0)
+	}
+	if n == 0 {
+		r.Und("envconfig-tag", token.NoPos, "no JSON configuration struct found")
+	}
+}
+
+func r0911(c *Ctx, r *R) {
+	if f := c.fn(r, "monitor/metrics", "Window.Add"); f != nil {
+		var store *ssa.Store
+		instrs(f, func(i ssa.Instruction) {
+			if st, ok := i.(*ssa.Store); ok {
+				if fl, _ := fieldOfAddrValue(st.Addr); fl != nil && fl.Name() == "Value" && paramIndex(f, st.Val) == 1 {
+					store = st
+				}
+				if mi, ok := st.Val.(*ssa.MakeInterface); ok && paramIndex(f, mi.X) == 1 {
+					if fl, _ := fieldOfAddrValue(st.Addr); fl != nil && fl.Name() == "Value" {
+						store = st
+					}
+				}
+			}
+		})
+		if store == nil {
+			r.Und("window-add", f.Pos(), "Window.Add does not store its argument in the ring: shape not recognised")
+		} else {
+			r.Check(onEveryPath(store), "window-add:unconditional", store.Pos(), "every metric handed to the window becomes its latest entry", "Window.Add drops some metrics (a test or early return in front of the store): a peer's older valid metric stays the latest after it reported an invalid one, and the peer is still ranked and allocated on the stale value")
+		}
+	}
+	if f := c.fn(r, "monitor/pubsubmon", "Monitor.PublishMetric"); f != nil {
+		pubs := findCalls(f, false, "go-libp2p-pubsub.Topic).Publish")
+		if len(pubs) == 0 {
+			r.Und("publish", f.Pos(), "PublishMetric does not publish: shape not recognised")
+		}
+		for _, ci := range pubs {
+			args := callArgs(ci.Common())
+			fresh := false
+			if len(args) >= 2 {
+				if bc, _ := originCall(args[1]); bc != nil && nameMatches(callName(bc.Common()), "(*bytes.Buffer).Bytes") {
+					if al, ok := stripLocal(bc.Common().Args[0]).(*ssa.Alloc); ok && al.Parent() == f {
+						fresh = true
+					}
+				} else if bc == nil || !nameMatches(callName(bc.Common()), "(*bytes.Buffer).Bytes") {
+					fresh = true // not a shared buffer's bytes (a marshal result, a copy)
+				}
+			}
+			r.Check(fresh, "publish:own-buffer", ci.Pos(), "the published payload is this call's own buffer", "PublishMetric publishes the bytes of a buffer that outlives the call (taken from a pool or a field): pubsub does not copy the payload, so the next metric encoded into the buffer overwrites a message still being delivered - subscribers decode garbage or drop it")
+		}
+	}
+	if f := c.fn(r, "pintracker/optracker", "OperationTracker.GetExists"); f != nil {
+		notFound := func(g Guard) bool {
+			l, idx := mapLookupOf(g.Cond)
+			return l != nil && idx == 1 && !g.Branch
+		}
+		for _, lf := range returnLeaves(f, 1) {
+			if k, isK := constOf(lf.Val); isK && k != nil && !boolVal(k) {
+				r.Check(mustPass(lf.Block, notFound), "getexists:absent-only-when-untracked", lf.Pos, "'no operation' is answered only when none is tracked for the CID", "GetExists answers 'no operation' for a CID it tracks (a test other than the table lookup): failed operations are kept cancelled in the tracker, so Status falls through to the state check and reports a failed unpin as 'unpinned', and Recover finds nothing to retry")
+			}
+		}
+	}
+}
+
+func r048(c *Ctx, r *R) {
+	// setupReplicationFactor: each default is applied under the test on its
+	// own factor
+	if f := c.fn(r, "", "Cluster.setupReplicationFactor"); f != nil {
+		n := 0
+		instrs(f, func(i ssa.Instruction) {
+			st, ok := i.(*ssa.Store)
+			if !ok {
+				return
+			}
+			fl, _ := fieldOfAddrValue(st.Addr)
+			if fl == nil || (fl.Name() != "ReplicationFactorMin" && fl.Name() != "ReplicationFactorMax") {
+				return
+			}
+			fromCfg := false
+			for _, l := range phiLeaves(st.Val) {
+				if cf, _ := fieldLoad(l); cf != nil && cf.Name() == fl.Name() && strings.HasSuffix(cf.Pkg().Path(), "ipfs-cluster") {
+					fromCfg = true
+				}
+			}
+			if !fromCfg {
+				return
+			}
+			n++
+			own := func(g Guard) bool {
+				x, k, tme, isEq := eqConst(g.Cond)
+				if !isEq || tme != g.Branch {
+					return false
+				}
+				if iv, ok := constant.Int64Val(k); !ok || iv != 0 {
+					return false
+				}
+				xf, _ := fieldLoad(x)
+				return xf != nil && xf.Name() == fl.Name()
+			}
+			r.Check(mustPass(st.Block(), own), "default-per-factor:"+fl.Name(), st.Pos(), fl.Name()+" is replaced by the cluster default only when the request left it unset", "setupReplicationFactor replaces "+fl.Name()+" by the cluster default on a path where the request had set it (the test is on the other factor): a requested factor is silently discarded, and a pair that must be refused is validated as the configured pair")
+		})
+		if n == 0 {
+			r.Und("default-per-factor", f.Pos(), "setupReplicationFactor stores no cluster default into the pin: shape not recognised")
+		}
+	}
+	// FromQuery: the shorthand reaches both factors
+	if f := c.fn(r, "api", "PinOptions.FromQuery"); f != nil {
+		within := ssaClosure(f)
+		keysFor := map[string]map[string]bool{}
+		for _, ci := range callsIn(f) {
+			cal := ci.Common().StaticCallee()
+			if cal == nil || !strings.HasPrefix(cal.Name(), "parse") {
+				continue
+			}
+			args := ci.Common().Args
+			if len(args) < 3 {
+				continue
+			}
+			fl, _ := fieldOfAddrValue(args[2])
+			if fl == nil || !strings.HasPrefix(fl.Name(), "ReplicationFactor") {
+				continue
+			}
+			ks, _ := constStringsReaching(args[1], within)
+			m := map[string]bool{}
+			for k := range ks {
+				m[k] = true
+			}
+			keysFor[fl.Name()] = m
+		}
+		sets := map[string]bool{}
+		for _, ci := range findCalls(f, false, "(net/url.Values).Set") {
+			args := callArgs(ci.Common())
+			if k, ok := constString(args[0]); ok {
+				sets[k] = true
+			}
+		}
+		mn, mx := keysFor["ReplicationFactorMin"], keysFor["ReplicationFactorMax"]
+		if mn == nil || mx == nil {
+			r.Und("shorthand", f.Pos(), "FromQuery: the parsing of the replication factors was not recognised")
+		} else {
+			viaKeys := mn["replication"] && mx["replication"]
+			viaSets := sets["replication-min"] && sets["replication-max"]
+			lopsided := mn["replication"] != mx["replication"] || sets["replication-min"] != sets["replication-max"]
+			r.Check((viaKeys || viaSets) && !lopsided, "shorthand:both-factors", f.Pos(), "`replication=N` sets the minimum and the maximum", "PinOptions.FromQuery applies the `replication` shorthand to one factor only: `replication=3` becomes <cluster default>/3, so a request that must fail for lack of 3 healthy peers succeeds with fewer holders")
+		}
+	}
 }
